@@ -1,6 +1,8 @@
 package main
 
 import (
+	"go/types"
+
 	"golang.org/x/tools/go/ssa"
 )
 
@@ -102,5 +104,114 @@ func (P *Prog) nodeUnits(nf *ssa.Function) []*nodeUnit {
 		P.unitsMemo = map[*ssa.Function][]*nodeUnit{}
 	}
 	P.unitsMemo[nf] = out
+	return out
+}
+
+// A loop region: the body of a map-range loop found in one of the code units of a node function, together
+// with the closures and helpers called from that body (a `visit(key, schema, field, ptr)` callback handed to an
+// iteration helper, resolved under the unit's substitution), each part with the substitution under which its
+// values are to be read. Rules about "the field loop" iterate over the region, so the loop may live in the node
+// function, in a helper, or be split between an iteration helper and a closure.
+type regionPart struct {
+	fn     *ssa.Function
+	blocks map[*ssa.BasicBlock]bool // nil: the whole function
+	env    map[ssa.Value]ssa.Value
+}
+
+type loopRegion struct {
+	unit  *nodeUnit
+	loop  rangeLoop
+	parts []regionPart
+}
+
+// each calls f for every instruction of the region, under the substitution of its part.
+func (lr *loopRegion) each(f func(part *regionPart, b *ssa.BasicBlock, in ssa.Instruction)) {
+	for i := range lr.parts {
+		pt := &lr.parts[i]
+		saved := substEnv
+		substEnv = pt.env
+		for _, b := range pt.fn.Blocks {
+			if pt.blocks != nil && !pt.blocks[b] {
+				continue
+			}
+			for _, in := range b.Instrs {
+				f(pt, b, in)
+			}
+		}
+		substEnv = saved
+	}
+}
+
+// schemaLoopRegions: the regions of the loops that range over a map of the node's kind with role `schema`
+// (or, when elemIsSchema is false, over any map) in the code units of nf.
+func (P *Prog) schemaLoopRegions(nf *ssa.Function) []*loopRegion {
+	var out []*loopRegion
+	for _, u := range P.nodeUnits(nf) {
+		for _, l := range mapRangeLoops(u.fn) {
+			mt, ok := l.rng.X.Type().Underlying().(*types.Map)
+			if !ok || P.roles.ZogSchema == nil || !types.Identical(mt.Elem().Underlying(), P.roles.ZogSchema) {
+				continue
+			}
+			lr := &loopRegion{unit: u, loop: l}
+			lr.parts = append(lr.parts, regionPart{fn: u.fn, blocks: l.body, env: u.env})
+			seen := map[*ssa.Function]bool{u.fn: true}
+			var addCallees func(pt regionPart, depth int)
+			addCallees = func(pt regionPart, depth int) {
+				if depth > 3 {
+					return
+				}
+				saved := substEnv
+				substEnv = pt.env
+				defer func() { substEnv = saved }()
+				for _, b := range pt.fn.Blocks {
+					if pt.blocks != nil && !pt.blocks[b] {
+						continue
+					}
+					for _, in := range b.Instrs {
+						ci := callOf(in)
+						if ci == nil {
+							continue
+						}
+						var callee *ssa.Function
+						switch {
+						case ci.static != nil && ci.static.Blocks != nil && inModule(funcPkgPath(ci.static)) && !P.isAnchorFn(ci.static):
+							callee = ci.static
+						case ci.dynamic:
+							switch x := cv(ci.instr.Common().Value).(type) {
+							case *ssa.MakeClosure:
+								callee, _ = x.Fn.(*ssa.Function)
+							case *ssa.Function:
+								if inModule(funcPkgPath(x)) {
+									callee = x
+								}
+							}
+						}
+						if callee == nil || callee.Blocks == nil || seen[callee] {
+							continue
+						}
+						if _, isD := P.sharedCatchAnalysis().dispatchCallee(ci); isD {
+							continue
+						}
+						seen[callee] = true
+						env := map[ssa.Value]ssa.Value{}
+						for k, v := range pt.env {
+							env[k] = v
+						}
+						args := ci.instr.Common().Args
+						for k, prm := range callee.Params {
+							if k < len(args) {
+								env[prm] = args[k]
+							}
+						}
+						np := regionPart{fn: callee, env: env}
+						lr.parts = append(lr.parts, np)
+						addCallees(np, depth+1)
+					}
+				}
+			}
+			addCallees(lr.parts[0], 0)
+			out = append(out, lr)
+		}
+	}
 	return out
 }
